@@ -52,7 +52,9 @@ def serialize_json_safe(obj: Any) -> Any:
     """Return ``obj`` if JSON serializable, else ``safe_repr`` string."""
 
     try:
-        json.dumps(obj, ensure_ascii=False)
+        # Probe with the options the trace writers use: sorting keys rejects
+        # mappings whose keys cannot be ordered (e.g. 1 and "a").
+        json.dumps(obj, ensure_ascii=False, sort_keys=True)
         return obj
     except Exception:
         return safe_repr(obj)
